@@ -291,7 +291,8 @@ theorem step_runScript {env : Env} {n : Nat} (S : Spec env n) :
       have ⟨i1, _, i3⟩ := hd np' heq
       have g : G p { p with buf := np'.buf.setMode p.buf.mode } := ⟨inv_setMode _ _ i1, setMode_mode _ _, rfl⟩
       exact GS_trans g (S.runScript _ _ (G.pre hp g) hk)
-    · rename_i r hne
+    · exact GR_unsupported _
+    · rename_i r hne _
       intro q hq
       exact absurd hq (by intro h; exact hne q h)
   · -- printf
@@ -306,7 +307,8 @@ theorem step_runScript {env : Env} {n : Nat} (S : Spec env n) :
       have ⟨i1, _, i3⟩ := hd np' heq
       have g : G p { p with buf := np'.buf.setMode p.buf.mode } := ⟨inv_setMode _ _ i1, setMode_mode _ _, rfl⟩
       exact GS_trans g (S.runScript _ _ (G.pre hp g) hk)
-    · rename_i r hne
+    · exact GR_unsupported _
+    · rename_i r hne _
       intro q hq
       exact absurd hq (by intro h; exact hne q h)
 
